@@ -549,6 +549,54 @@ fn scale_values() -> Vec<(String, Val)> {
         }
         out.push((format!("{} sets", n), Val { meta: Some(long.clone()), clip: (0..257).map(|i| if i % 2 == 0 { Some(format!("{}{}", long, i)) } else { None }).collect(), sets }));
     }
+    out.extend(dense_values(false));
+    out
+}
+
+/// DENSE sweeps (every value from 0, so that every residue of the data size modulo a page is
+/// hit): the number of sets with 1-word and 3-word sets, the length of every kind of name; and
+/// the shared tricky-string catalogue as meta / clip name / label / slot name.
+fn dense_values(thorough: bool) -> Vec<(String, Val)> {
+    let mut out = Vec::new();
+    let none_clip: Vec<Option<String>> = vec![None; 257];
+    let (n1, n3, nl) = if thorough { (4200usize, 1500usize, 1200usize) } else { (1100, 400, 300) };
+    for n in 0..=n1 {
+        out.push((format!("dense: {} empty sets", n), Val { meta: None, clip: none_clip.clone(), sets: vec![vec![None; 257]; n] }));
+    }
+    for n in 0..=n3 {
+        let sets = (0..n)
+            .map(|i| {
+                let mut set: Vec<Option<String>> = vec![None; 257];
+                set[1 + (i * 37) % 256] = Some(format!("a{}", i % 5));
+                set
+            })
+            .collect();
+        out.push((format!("dense: {} one-slot sets", n), Val { meta: Some("m".into()), clip: none_clip.clone(), sets }));
+    }
+    for l in 0..=nl {
+        let a: String = "abcdefghijklmnopqrstuvwxyz".chars().cycle().take(l).collect();
+        let b: String = "漢字".chars().cycle().take(l / 2).collect::<String>() + if l % 2 == 1 { "z" } else { "" };
+        let mut clip = none_clip.clone();
+        clip[0] = Some(a.clone());
+        clip[256] = Some(b.clone());
+        let mut set: Vec<Option<String>> = vec![None; 257];
+        set[0] = Some(b.clone());
+        set[1] = Some(a.clone());
+        set[256] = Some(b.clone());
+        out.push((format!("dense: names of {} bytes", l), Val { meta: Some(a), clip, sets: vec![set] }));
+    }
+    let tricky = vcore::sjis::tricky_strings();
+    for (i, s) in tricky.iter().enumerate() {
+        let other = &tricky[(i + 1) % tricky.len()];
+        let mut clip = none_clip.clone();
+        clip[i % 257] = Some(s.clone());
+        clip[(i + 100) % 257] = Some(other.clone());
+        let mut set: Vec<Option<String>> = vec![None; 257];
+        set[0] = Some(s.clone());
+        set[1 + i % 256] = Some(s.clone());
+        set[256] = Some(other.clone());
+        out.push((format!("tricky string #{}", i), Val { meta: Some(s.clone()), clip, sets: vec![set, vec![None; 257]] }));
+    }
     out
 }
 
@@ -575,7 +623,11 @@ fn explore(ctx: &Ctx) -> Outcome {
             v.sig = format!("after-failed-calls:{}", v.sig);
         }
     }
-    let scale_t = scale_values()
+    let mut sv = scale_values();
+    if thorough {
+        sv.extend(dense_values(true));
+    }
+    let scale_t = sv
         .par_iter()
         .fold(Tally::new, |mut t, (name, v)| {
             t.cases += 1;
@@ -631,7 +683,7 @@ fn explore(ctx: &Ctx) -> Outcome {
 fn replay(_ctx: &Ctx, case: &Value) -> Vec<Violation> {
     if let Some(name) = case["scale"].as_str() {
         let mut out = Vec::new();
-        for (n, v) in scale_values() {
+        for (n, v) in scale_values().into_iter().chain(dense_values(true)) {
             if n == name {
                 let mut t = Tally::new();
                 if let Some((sig, summary)) = judge(&v, &mut t) {
